@@ -1,8 +1,373 @@
-//! C08 – not implemented yet.
-use mvlib::Ctx;
-use serde_json::Value;
+//! C08 – layout of the source text does not change its meaning.
+//!
+//! Base programs x deviations at every trivia-accepting slot / case-bearing terminal; bound =
+//! number of simultaneous deviations (1 quick, 2 thorough for nearby slots).
 
-pub fn run(_ctx: &Ctx, _replay: Option<&Value>) -> i32 {
-    eprintln!("C08: engine not implemented yet");
-    2
+use crate::probe::{self, Built, Opts, Sym};
+use crate::props::c01;
+use crate::util::par_each;
+use mvlib::grammar::*;
+use mvlib::isa::Isa;
+use mvlib::progs::{base_programs, Prog, OTHER_ASM};
+use mvlib::{fnv_str, Ctx, Finding};
+use serde_json::{json, Value};
+use std::collections::BTreeMap;
+
+const WS_TRIVIA: [(&str, &str); 5] = [
+    ("space", " "),
+    ("tab", "\t"),
+    ("block-comment", "/* c */"),
+    ("nested-comment", "/* a /* nested */ b */"),
+    ("code-comment", "/* lda #1 */"),
+];
+
+const MWS_TRIVIA: [(&str, &str); 3] = [
+    ("newline", "\n"),
+    ("line-comment", "// c\n"),
+    ("code-line-comment", "// lda #1\n"),
+];
+
+#[derive(Clone, Debug, PartialEq, Eq)]
+pub struct Meaning {
+    pub segs: Vec<(String, usize, Vec<u8>)>,
+    pub symbols: BTreeMap<String, (Sym, &'static str)>,
+    pub messages: Vec<String>,
+    pub panic: Option<String>,
+}
+
+fn normalise_message(m: &str) -> String {
+    // several messages quote source text together with its trivia; reduce to the token string
+    let mut s = m.to_string();
+    for (_, t) in WS_TRIVIA.iter().chain(MWS_TRIVIA.iter()) {
+        let t = t.trim_end_matches('\n');
+        if t.trim().is_empty() {
+            continue;
+        }
+        s = s.replace(t, "");
+    }
+    s.chars()
+        .filter(|c| !c.is_whitespace())
+        .collect::<String>()
+        .to_lowercase()
+}
+
+pub fn meaning_of(text: &str, opts: &Opts) -> Meaning {
+    match probe::assemble(&[("main.asm", text), ("other.asm", OTHER_ASM)], opts) {
+        Ok(b) => meaning(&b),
+        Err(p) => Meaning {
+            segs: vec![],
+            symbols: BTreeMap::new(),
+            messages: vec![],
+            panic: Some(format!("{} at {}", p.message, p.site)),
+        },
+    }
+}
+
+fn meaning(b: &Built) -> Meaning {
+    let mut messages: Vec<String> = b
+        .all_diags()
+        .iter()
+        .map(|d| normalise_message(&d.message))
+        .collect();
+    messages.sort();
+    let ok = b.ok();
+    Meaning {
+        // bytes and symbols are only an observable result of a successful build
+        segs: if ok {
+            b.segs
+                .iter()
+                .map(|s| (s.name.clone(), s.start, s.bytes.clone()))
+                .collect()
+        } else {
+            vec![]
+        },
+        symbols: if ok { b.symbols.clone() } else { BTreeMap::new() },
+        messages,
+        panic: None,
+    }
+}
+
+fn dev_label(r: &Rendered, d: &Dev) -> String {
+    let kind = |i: usize| -> String {
+        let t = &r.terms[i];
+        match t.kind {
+            Kind::Punct | Kind::Op => format!("'{}'", t.text),
+            Kind::Directive | Kind::Keyword => t.text.to_lowercase(),
+            k => k.name().to_string(),
+        }
+    };
+    match d {
+        Dev::Insert(i, s) => {
+            let name = WS_TRIVIA
+                .iter()
+                .chain(MWS_TRIVIA.iter())
+                .find(|(_, t)| t == s)
+                .map(|(n, _)| *n)
+                .unwrap_or("trivia");
+            let before = if *i == 0 { "bof".to_string() } else { kind(*i - 1) };
+            format!("{}|{}|{}", before, name, kind(*i))
+        }
+        Dev::Flip(i) => format!("case:{}", kind(*i)),
+        Dev::Sep(i, _) => format!("sep:{}", kind(*i)),
+    }
+}
+
+fn single_devs(r: &Rendered) -> Vec<Dev> {
+    let mut out = vec![];
+    for (i, t) in r.terms.iter().enumerate() {
+        match t.slot {
+            Slot::None => {}
+            Slot::Ws => {
+                for (_, s) in WS_TRIVIA.iter() {
+                    out.push(Dev::Insert(i, s.to_string()));
+                }
+            }
+            Slot::Mws => {
+                for (_, s) in WS_TRIVIA.iter().chain(MWS_TRIVIA.iter()) {
+                    out.push(Dev::Insert(i, s.to_string()));
+                }
+            }
+        }
+        if t.flip {
+            out.push(Dev::Flip(i));
+        }
+    }
+    out
+}
+
+fn dev_index(d: &Dev) -> usize {
+    match d {
+        Dev::Insert(i, _) | Dev::Flip(i) | Dev::Sep(i, _) => *i,
+    }
+}
+
+fn diff(a: &Meaning, b: &Meaning) -> Option<String> {
+    if let Some(p) = &b.panic {
+        return Some(format!("panic: {}", p));
+    }
+    if a.messages != b.messages {
+        return Some(format!("diagnostics {:?} became {:?}", a.messages, b.messages));
+    }
+    if a.segs != b.segs {
+        return Some(format!(
+            "bytes changed: {:?} -> {:?}",
+            a.segs.iter().map(|s| (s.0.clone(), s.1, crate::util::hex_bytes(&s.2))).collect::<Vec<_>>(),
+            b.segs.iter().map(|s| (s.0.clone(), s.1, crate::util::hex_bytes(&s.2))).collect::<Vec<_>>()
+        ));
+    }
+    if a.symbols != b.symbols {
+        let changed: Vec<String> = a
+            .symbols
+            .iter()
+            .filter(|(k, v)| b.symbols.get(*k) != Some(v))
+            .map(|(k, _)| k.clone())
+            .chain(b.symbols.keys().filter(|k| !a.symbols.contains_key(*k)).cloned())
+            .take(5)
+            .collect();
+        return Some(format!("symbols changed: {:?}", changed));
+    }
+    None
+}
+
+fn what_kind(d: &str) -> &'static str {
+    if d.starts_with("panic") {
+        "panic"
+    } else if d.starts_with("diagnostics") {
+        "diagnostics"
+    } else if d.starts_with("bytes") {
+        "bytes"
+    } else {
+        "symbols"
+    }
+}
+
+fn case_json(text: &str, base: &str, prog: &str) -> Value {
+    json!({"kind": "layout", "program": prog, "files": {"main.asm": text, "other.asm": OTHER_ASM}, "base": base})
+}
+
+pub fn all_bases(isa: &Isa) -> Vec<Prog> {
+    let mut progs = base_programs();
+    // every statement form of the C01 catalogue once
+    let cat = c01::catalogue(isa, 1);
+    for chunk in cat.chunks(12) {
+        let mut stmts = vec![];
+        let mut seen_label = false;
+        for (k, s) in chunk {
+            // names l1/c1/v1/m1 occur once per catalogue
+            if k == "label" {
+                if seen_label {
+                    continue;
+                }
+                seen_label = true;
+            }
+            if k == "label-block" {
+                continue;
+            }
+            stmts.extend(s.iter().cloned());
+        }
+        progs.push(Prog {
+            name: format!("catalogue-{}", chunk[0].0),
+            stmts,
+            valid: true,
+        });
+    }
+    progs.push(Prog {
+        name: "catalogue-label-block".into(),
+        stmts: vec![label_block("lb", vec![imp("nop")])],
+        valid: true,
+    });
+    progs
+}
+
+pub fn run(ctx: &Ctx, replay: Option<&Value>) -> i32 {
+    let opts = Opts::default();
+    if let Some(case) = replay {
+        let text = case["files"]["main.asm"].as_str().unwrap_or("");
+        let base = case["base"].as_str().unwrap_or("");
+        let a = meaning_of(base, &opts);
+        let b = meaning_of(text, &opts);
+        println!("base:\n{}\n--- variant:\n{}\n---", base, text);
+        match diff(&a, &b) {
+            Some(d) => println!("MEANING DIFFERS: {}", d),
+            None => println!("same meaning"),
+        }
+        return 0;
+    }
+    let isa = Isa::new();
+    let thorough = ctx.tier.is_thorough();
+    let progs = all_bases(&isa);
+    ctx.set("base_programs", json!(progs.len()));
+    struct Work {
+        prog: usize,
+        devs: Vec<Dev>,
+    }
+    let rendered: Vec<Rendered> = progs.iter().map(|p| render(&p.stmts)).collect();
+    let bases: Vec<(String, Meaning)> = rendered
+        .iter()
+        .map(|r| {
+            let t = r.text();
+            let m = meaning_of(&t, &opts);
+            (t, m)
+        })
+        .collect();
+    for (i, p) in progs.iter().enumerate() {
+        let ok = bases[i].1.messages.is_empty() && bases[i].1.panic.is_none();
+        if ok != p.valid {
+            ctx.finding(Finding::new(
+                format!("base:{}:{}", p.name, if p.valid { "rejected" } else { "accepted" }),
+                format!("base program {:?}: valid={} but messages={:?} panic={:?}", bases[i].0, p.valid, bases[i].1.messages, bases[i].1.panic),
+                case_json(&bases[i].0, &bases[i].0, &p.name),
+            ));
+        }
+        ctx.count(if ok { "bases_assembling" } else { "bases_with_diagnostics" });
+    }
+    // bound 1
+    let mut work = vec![];
+    let mut total_slots = 0;
+    for (pi, r) in rendered.iter().enumerate() {
+        total_slots += r.terms.iter().filter(|t| t.slot != Slot::None).count();
+        for d in single_devs(r) {
+            work.push(Work { prog: pi, devs: vec![d] });
+        }
+        // whole file LF -> CRLF handled below; trailing trivia at end of file
+    }
+    ctx.set("trivia_slots", json!(total_slots));
+    ctx.set("single_deviations", json!(work.len()));
+    let failing_single = std::sync::Mutex::new(std::collections::HashSet::<(usize, String)>::new());
+    let run_work = |w: Work| {
+        let r = &rendered[w.prog];
+        let text = r.layout(&w.devs).text;
+        ctx.eval(|| json!(text));
+        if text != bases[w.prog].0 {
+            ctx.nontrivial(fnv_str(&text));
+        }
+        let m = meaning_of(&text, &opts);
+        if let Some(d) = diff(&bases[w.prog].1, &m) {
+            let labels: Vec<String> = w.devs.iter().map(|d| dev_label(r, d)).collect();
+            if w.devs.len() == 1 {
+                failing_single
+                    .lock()
+                    .unwrap()
+                    .insert((w.prog, format!("{:?}", w.devs[0])));
+            }
+            let prefix = if w.devs.len() == 1 { "layout" } else { "layout2" };
+            ctx.finding(Finding::new(
+                format!("{}:{}:{}", prefix, labels.join("&"), what_kind(&d)),
+                format!("{} — variant {:?} of {:?}", d, text, bases[w.prog].0),
+                case_json(&text, &bases[w.prog].0, &progs[w.prog].name),
+            ));
+        }
+    };
+    par_each(work, &run_work);
+
+    // whole-file variants: CRLF, trailing trivia
+    for (pi, (base, bm)) in bases.iter().enumerate() {
+        let mut variants: Vec<(&str, String)> = vec![
+            ("crlf", base.replace('\n', "\r\n")),
+            ("trailing-newline", format!("{}\n", base)),
+            ("trailing-crlf", format!("{}\r\n", base.replace('\n', "\r\n"))),
+            ("trailing-comment", format!("{} // end", base)),
+            ("trailing-block-comment", format!("{}\n/* end */\n", base)),
+            ("leading-comment", format!("// start\n{}", base)),
+            ("leading-blank", format!("\n\n  {}", base)),
+        ];
+        if thorough {
+            variants.push(("indented", base.replace('\n', "\n\t  ")));
+        }
+        for (name, text) in variants {
+            ctx.eval(|| json!(text));
+            ctx.nontrivial(fnv_str(&text));
+            let m = meaning_of(&text, &opts);
+            if let Some(d) = diff(bm, &m) {
+                ctx.finding(Finding::new(
+                    format!("layout:file:{}:{}", name, what_kind(&d)),
+                    format!("{} — {} variant of {:?}", d, name, base),
+                    case_json(&text, base, &progs[pi].name),
+                ));
+            }
+        }
+    }
+
+    // bound 2: all pairs of deviations on nearby terminals (distance <= 6 terminals)
+    if thorough {
+        let failing = failing_single.lock().unwrap().clone();
+        let mut work2 = vec![];
+        for (pi, r) in rendered.iter().enumerate() {
+            let devs = single_devs(r);
+            for a in 0..devs.len() {
+                if failing.contains(&(pi, format!("{:?}", devs[a]))) {
+                    continue;
+                }
+                for b in a + 1..devs.len() {
+                    let (ia, ib) = (dev_index(&devs[a]), dev_index(&devs[b]));
+                    if ib - ia > 6 {
+                        break;
+                    }
+                    if ia == ib && matches!((&devs[a], &devs[b]), (Dev::Insert(..), Dev::Insert(..))) {
+                        // two trivia at the same slot: order a then b
+                    }
+                    if failing.contains(&(pi, format!("{:?}", devs[b]))) {
+                        continue;
+                    }
+                    work2.push(Work {
+                        prog: pi,
+                        devs: vec![devs[a].clone(), devs[b].clone()],
+                    });
+                }
+            }
+        }
+        ctx.set("pair_deviations", json!(work2.len()));
+        par_each(work2, &run_work);
+    }
+    ctx.set("deviation_bound", json!(if thorough { 2 } else { 1 }));
+    ctx.finish(
+        "exploration",
+        "base programs (every statement kind in nesting contexts + every form of the C01 catalogue + 8 programs with diagnostics) x every deviation at every slot the grammar marks as trivia-accepting (5 single-line trivia at ws slots, 3 more multi-line ones at mws slots), case flip of every case-bearing terminal, whole-file CRLF / leading / trailing trivia; thorough: all pairs of deviations at most 6 terminals apart. Oracle: segment bytes, symbol table and normalised diagnostic messages equal the base's. non-trivial = distinct variant text different from its base",
+        true,
+        &[
+            "trivia slots are those of the harness grammar (derived by reading the parser); number literals and strings are single terminals (no deviation inside them)",
+            "diagnostic messages are compared after removing whitespace/comments/case from quoted source fragments; positions are not compared",
+            "deviation bound 1 (quick) / 2 within 6 terminals (thorough)",
+        ],
+    )
 }
